@@ -1,5 +1,5 @@
 //! slicec-bounded <check>   -- prints one JSON object per counterexample (at most 5) and a summary.
-//! checks: plugin (C19)  preproc (C06)  decode (C11)  totals (C07)  visitor (C20)  fileset (C17)  lexical (C01)  snippet (C09)  lints (C13)  spans (C09)  request (C08)  comments (C16)  fidelity (C02)  scopes (C03)  rules (C04)  cycles (C05)  emission (C14)  roundtrip (C10)  generators (C18)
+//! checks: plugin (C19)  preproc (C06)  decode (C11)  alloc (C11)  totals (C07)  visitor (C20)  fileset (C17)  lexical (C01)  snippet (C09)  lints (C13)  spans (C09)  request (C08)  comments (C16)  fidelity (C02)  scopes (C03)  rules (C04)  cycles (C05)  emission (C14)  roundtrip (C10)  generators (C18)
 use std::collections::{BTreeMap, HashMap, HashSet};
 
 mod oracle_comments;
@@ -25,6 +25,29 @@ mod oracle_scopes;
 mod oracle_snippet;
 mod oracle_spans;
 mod oracle_visitor;
+
+// a counting allocator (stand-in `alloc`, C11): the largest single request since the last reset
+pub struct Counting;
+pub static MAX_REQ: std::sync::atomic::AtomicUsize = std::sync::atomic::AtomicUsize::new(0);
+unsafe impl std::alloc::GlobalAlloc for Counting {
+    unsafe fn alloc(&self, l: std::alloc::Layout) -> *mut u8 {
+        MAX_REQ.fetch_max(l.size(), std::sync::atomic::Ordering::Relaxed);
+        std::alloc::System.alloc(l)
+    }
+    unsafe fn dealloc(&self, p: *mut u8, l: std::alloc::Layout) {
+        std::alloc::System.dealloc(p, l)
+    }
+    unsafe fn realloc(&self, p: *mut u8, l: std::alloc::Layout, n: usize) -> *mut u8 {
+        MAX_REQ.fetch_max(n, std::sync::atomic::Ordering::Relaxed);
+        std::alloc::System.realloc(p, l, n)
+    }
+    unsafe fn alloc_zeroed(&self, l: std::alloc::Layout) -> *mut u8 {
+        MAX_REQ.fetch_max(l.size(), std::sync::atomic::Ordering::Relaxed);
+        std::alloc::System.alloc_zeroed(l)
+    }
+}
+#[global_allocator]
+static ALLOCATOR: Counting = Counting;
 
 fn js(s: &str) -> String {
     let mut o = String::from("\"");
@@ -108,6 +131,7 @@ fn main() {
         "plugin" => oracle_plugin::run(),
         "preproc" => oracle_preproc::run(),
         "decode" => decode_check(),
+        "alloc" => alloc_check(),
         "totals" => totals_check(),
         "visitor" => oracle_visitor::run(),
         "fileset" => oracle_fileset::run(),
@@ -191,6 +215,64 @@ fn decode_check() -> i32 {
                 Ok((_, false, _)) => rep.counterexample(&format!("{name}:{hexs}"), "cursor inside buffer", "cursor outside"),
                 Ok((_, _, false)) => rep.counterexample(&format!("{name}:{hexs}"), "error renders", "PANIC while rendering the error"),
                 _ => {}
+            }
+        }
+    }
+    rep.finish()
+}
+
+// ------------------------------------------------------------------------------------------------
+// C11: "its cost in time and memory is governed by the length of the input, not by the sizes the input merely
+// announces": inputs of <= 12 bytes that ANNOUNCE up to 2^61 elements / bytes, at the top level and one level down,
+// for every decodable collection type, under a counting allocator: no single request above 1 MiB, no decode above 1 s.
+// ------------------------------------------------------------------------------------------------
+fn alloc_check() -> i32 {
+    use slice_codec::buffer::slice::SliceInputSource;
+    use slice_codec::decoder::Decoder;
+    use std::sync::atomic::Ordering;
+    let mut rep = Report::new("alloc", "announced sizes 2^24-1 / 2^28 / 2^30-1 (4-byte form) and 2^40 / 2^61 (8-byte form) x 4 tails (nothing, 1 byte, 3 bytes, 7 bytes) x at the top level / as the first element of a one-element sequence x 10 collection types: largest single allocation request <= 1 MiB, decode time <= 1 s");
+    let announced: Vec<Vec<u8>> = vec![
+        ((((1u64 << 24) - 1) << 2) | 2).to_le_bytes()[..4].to_vec(), (((1u64 << 28) << 2) | 2).to_le_bytes()[..4].to_vec(), vec![0xfe, 0xff, 0xff, 0xff],
+        (((1u64 << 40) << 2) | 3).to_le_bytes().to_vec(), ((((1u64 << 61) - 1) << 2) | 3).to_le_bytes().to_vec(),
+    ];
+    let tails: [&[u8]; 4] = [&[], &[0x61], &[0x61, 0x62, 0x63], &[0, 1, 2, 3, 4, 5, 6]];
+    type Dec = fn(&mut Decoder<SliceInputSource<'_>>) -> bool;
+    let types: Vec<(&str, Dec, bool)> = vec![
+        ("String", |d| d.decode::<String>().is_ok(), false),
+        ("Vec<u8>", |d| d.decode::<Vec<u8>>().is_ok(), false),
+        ("Vec<u64>", |d| d.decode::<Vec<u64>>().is_ok(), false),
+        ("Vec<String>", |d| d.decode::<Vec<String>>().is_ok(), true),
+        ("Vec<Vec<u64>>", |d| d.decode::<Vec<Vec<u64>>>().is_ok(), true),
+        ("HashMap<u8,u8>", |d| d.decode::<HashMap<u8, u8>>().is_ok(), false),
+        ("HashMap<String,String>", |d| d.decode::<HashMap<String, String>>().is_ok(), true),
+        ("BTreeMap<u8,u8>", |d| d.decode::<BTreeMap<u8, u8>>().is_ok(), false),
+        ("BTreeMap<String,Vec<u64>>", |d| d.decode::<BTreeMap<String, Vec<u64>>>().is_ok(), true),
+        ("Vec<HashMap<u8,u64>>", |d| d.decode::<Vec<HashMap<u8, u64>>>().is_ok(), true),
+    ];
+    for (name, f, nests) in &types {
+        for a in &announced {
+            for t in tails {
+                for inner in [false, true] {
+                    if inner && !nests { continue; }
+                    let mut input: Vec<u8> = if inner { vec![0x04] } else { vec![] }; // a sequence / dictionary of ONE element whose first part announces the size
+                    input.extend_from_slice(a);
+                    input.extend_from_slice(t);
+                    let label = format!("{name}: {}", input.iter().map(|b| format!("{b:02x}")).collect::<String>());
+                    rep.case(true, || label.clone());
+                    let f = *f;
+                    let data = input.clone();
+                    MAX_REQ.store(0, Ordering::Relaxed);
+                    let t0 = std::time::Instant::now();
+                    let r = std::panic::catch_unwind(move || { let mut d = Decoder::new(SliceInputSource::from(&data[..])); f(&mut d) });
+                    let secs = t0.elapsed().as_secs_f64();
+                    let req = MAX_REQ.load(Ordering::Relaxed);
+                    match r {
+                        Err(_) => rep.counterexample(&label, "Ok or Err", "PANIC while decoding"),
+                        Ok(_) if req > (1 << 20) => rep.counterexample(&label, &format!("memory governed by the {} bytes of input", input.len()), &format!("a single allocation request of {req} bytes")),
+                        Ok(_) if secs > 1.0 => rep.counterexample(&label, &format!("time governed by the {} bytes of input", input.len()), &format!("{secs:.1} s")),
+                        Ok(_) => {}
+                    }
+                }
             }
         }
     }
